@@ -366,7 +366,17 @@ class Interp:
             if counter:
                 out.append(counter["inv"](self, fr))
             if inv_fn:
-                out += inv_fn(self, fr, stage)
+                try:
+                    out += inv_fn(self, fr, stage)
+                except (z3.Z3Exception, TypeError, AttributeError):
+                    # the invariant mentions a scalar that the code has left uninitialised at this point: that is a
+                    # read of indeterminate state by anything relying on the invariant -> reported as an obligation
+                    unset = sorted(k for k, v in (fr.this.fields.items() if fr.this is not None else []) if isinstance(v, Undef))
+                    if not unset:
+                        raise
+                    self.c.oblige("%s/state-the-invariant-speaks-about-is-initialised (unset: %s)" % (P, ", ".join(unset)),
+                                  z3.BoolVal(False), "ensures")
+                    raise PathAbort("invariant over uninitialised state")
             return out
 
         # initiation
